@@ -115,6 +115,7 @@ struct Subject
     LD normM = 0;                                                 // complex shift: ||(A - sigma)(A - conj sigma)||
     std::vector<VecCL> starts;                            // start vectors (Iv_j alphabet)
     int extra_calls_per_compute = 0;                      // operator applications outside the counted iteration
+    bool pencil = false;                                  // generalized problem: A alone does not define the eigenpairs (no Rayleigh-quotient pairing test)
 };
 
 // Everything a caller can observe from one solver object after one operation
@@ -645,7 +646,7 @@ inline void oracle_consistency(const Subject& S, const OpDesc& op, const Obs& be
     // pairing: the Rayleigh quotient of column i is nearest to value i among well separated returned values
     // (complex shift with a coarse tolerance: the root of the back-transformation cannot be identified from an
     //  inaccurate vector - same restriction as the root-choice test of C02)
-    if (o.evecs.cols() == k && o.evecs.rows() == S.n && !(S.shift_mode == 2 && op.tol > 1e-6L))
+    if (!S.pencil && o.evecs.cols() == k && o.evecs.rows() == S.n && !(S.shift_mode == 2 && op.tol > 1e-6L))
         for (long i = 0; i < k; i++)
         {
             const VecCL x = o.evecs.col(i);
